@@ -103,3 +103,7 @@ traceback('dtw_best_path_customstart', [('rs', 'int'), ('cs', 'int')],
           ['1 <= rs <= l1', '1 <= cs <= l2',
            # the start cell lies in the band (so it is stored: dtw_wps_loc's contract)
            'JSrow(rs - 1, l1, l2, %s) <= cs - 1 < JErow(rs - 1, l1, l2, %s)' % (EFFW, EFFW)], 'rs', 'cs', gen_bp_start)
+# the max-oriented traceback of the affinity matrix: same index skeleton, returns at the first non-positive cell
+traceback('dtw_best_path_affinity', [('rs', 'int'), ('cs', 'int')],
+          ['1 <= rs <= l1', '1 <= cs <= l2',
+           'JSrow(rs - 1, l1, l2, %s) <= cs - 1 < JErow(rs - 1, l1, l2, %s)' % (EFFW, EFFW)], 'rs', 'cs', gen_bp_start)
